@@ -265,6 +265,14 @@ PROMO_SOUND = SND + """proof {
                 assert forall|a: int, b: int| #![trigger at(s.board, a, b)] #![trigger at(new_board.board, a, b)] seen(at(s.board, a, b), s.to_move) == seen(at(new_board.board, a, b), s.to_move) by {}
                 lemma_attacked_same_view(s.board, new_board.board, s.to_move, king_sq(s, board.to_move).0 as int, king_sq(s, board.to_move).1 as int);
             }
+            assert forall|i: int| lo <= i < new_moves@.len() implies legal_position(#[trigger] &new_moves@[i]) by {
+                let s = &new_moves@[i];
+                assert(gen_sound(board, s, square_cords));
+                assert(king_sq(s, color) == king_after(board, fr, fc, tr, tc));
+                assert(safe_after(board, fr, fc, tr, tc, s.pawn_promotion));
+                assert(legal_step(board, fr, fc, mov, s.pawn_promotion, move_generation_mode));
+                lemma_step_closure(board, s, fr, fc, mov, s.pawn_promotion, move_generation_mode);
+            }
         }""" % {'FR': FR}
 PROMO_CMP = CMP + """proof {
             %(FR)s
@@ -285,10 +293,11 @@ GMFP_INV = [
     'new_moves@.len() >= old(new_moves)@.len()',
     'forall|i: int| 0 <= i < old(new_moves)@.len() ==> new_moves@[i] == old(new_moves)@[i]',
     SND + 'forall|i: int| old(new_moves)@.len() <= i < new_moves@.len() ==> gen_sound(board, #[trigger] &new_moves@[i], square_cords)',
+    SND + 'forall|i: int| old(new_moves)@.len() <= i < new_moves@.len() ==> legal_position(#[trigger] &new_moves@[i])',
     KEY + 'key_ok(board, zobrist_hasher)',
     KEY + 'forall|i: int| old(new_moves)@.len() <= i < new_moves@.len() ==> key_ok(#[trigger] &new_moves@[i], zobrist_hasher)',
     CMP + 'targets_distinct(moves@)',
-    CMP + 'forall|i: int| 0 <= i < moves@.len() ==> pseudo_target(board, square_cords.0 as int, square_cords.1 as int, #[trigger] moves@[i], move_generation_mode)',
+    SND + 'forall|i: int| 0 <= i < moves@.len() ==> pseudo_target(board, square_cords.0 as int, square_cords.1 as int, #[trigger] moves@[i], move_generation_mode)',
     CMP + 'forall|t: Point| #[trigger] pseudo_target(board, square_cords.0 as int, square_cords.1 as int, t, move_generation_mode) ==> exists|j: int| 0 <= j < moves@.len() && #[trigger] moves@[j] == t',
     CMP + 'step_inv(board, square_cords, moves@, __i as int, new_moves@, old(new_moves)@.len() as int)',
     CMP + 'forall|i: int| old(new_moves)@.len() <= i < new_moves@.len() ==> legal_from(board, move_of(#[trigger] &new_moves@[i]), move_generation_mode)',
@@ -301,6 +310,8 @@ GMFP = {
         'forall|i: int| 0 <= i < old(new_moves)@.len() ==> final(new_moves)@[i] == old(new_moves)@[i]',
         # C02: each successor is the position after the move its descriptor names; the mover's king is safe in it
         SND + 'forall|i: int| old(new_moves)@.len() <= i < final(new_moves)@.len() ==> gen_sound(board, #[trigger] &final(new_moves)@[i], square_cords)',
+        # C02/C13 chains: every successor is again a legal position (the precondition of generation is re-established)
+        SND + 'forall|i: int| old(new_moves)@.len() <= i < final(new_moves)@.len() ==> legal_position(#[trigger] &final(new_moves)@[i])',
         # C05: the incremental key of each successor is its from-scratch key
         KEY + 'forall|i: int| old(new_moves)@.len() <= i < final(new_moves)@.len() ==> key_ok(#[trigger] &final(new_moves)@[i], zobrist_hasher)',
         # C01/C13: the appended successors are exactly the legal (capturing) non-castling moves of this piece --
@@ -328,6 +339,11 @@ GMFP = {
             assert(rights_ok(board));
             assert(succ_ok(board, s, fr, fc, tr, tc));
             assert(gen_sound(board, s, square_cords));
+            assert(ep_move(board, fr, fc, mov));
+            assert(king_sq(s, board.to_move) == king_after(board, fr, fc, tr, tc));
+            assert(safe_after(board, fr, fc, tr, tc, None));
+            assert(legal_ep(board, fr, fc, mov, None));
+            lemma_step_closure(board, s, fr, fc, mov, None, move_generation_mode);
         }""" % {'FR': FR}),
         ('new_moves.push(new_board);', 0, CMP + """proof {
                     lemma_step_push1(board, square_cords, moves@, __i - 1, pre, new_moves@, %(LO)s, new_moves@[new_moves@.len() - 1]);
@@ -387,8 +403,6 @@ GMFP = {
         ('new_moves.push(new_board);', 0, CMP + """proof {
             %(FR)s
             let s = &new_board;
-            assert(king_sq(s, color) == king_after(board, fr, fc, tr, tc));
-            assert(safe_after(board, fr, fc, tr, tc, s.pawn_promotion));
             assert(legal_step(board, fr, fc, mov, s.pawn_promotion, move_generation_mode));
             assert(legal_from(board, move_of(s), move_generation_mode));
         }""" % {'FR': FR}),
@@ -412,6 +426,10 @@ GMFP = {
             assert(promo_ok(board, fr, fc, tr, s.pawn_promotion));
             assert(succ_ok(board, s, fr, fc, tr, tc));
             assert(gen_sound(board, s, square_cords));
+            assert(king_sq(s, color) == king_after(board, fr, fc, tr, tc));
+            assert(safe_after(board, fr, fc, tr, tc, s.pawn_promotion));
+            assert(legal_step(board, fr, fc, mov, s.pawn_promotion, move_generation_mode));
+            lemma_step_closure(board, s, fr, fc, mov, s.pawn_promotion, move_generation_mode);
         }""" % {'FR': FR}),
         ('// take care of en passant captures', 0, 'let ghost after_loop = new_moves@; let ghost mut ep_try: Option<Point> = None; let ghost mut ep_safe: bool = false;'),
         ('if let Some(mov) = en_passant {', 0, CMP + """proof {
